@@ -1,4 +1,5 @@
 import LsLemmas.AbsFleetInv
+import LsLemmas.AbsFleetSettle
 /-
   C01 — Replicas converge to the per-key last-writer-wins winner.
   Stated on the abstract fleet (LsLemmas/AbsFleet.lean): any number of instances, arbitrary
@@ -72,5 +73,87 @@ example : Quiescent (run (init 2)
         have : i < 2 := hi
         omega
       rcases hi' with rfl | rfl <;> intro k <;> simp [run, step, init, DB.join, DB.empty, join_idem, join_none_left]
+
+/-- the settle schedule is literally "all upload, all load all of these uploads, all upload
+    again": for 2 instances and a bucket that already holds 3 snapshots -/
+example : settleSchedule 2 3 =
+    [.send 0, .send 1, .load 0 3, .load 0 4, .load 1 3, .load 1 4, .send 0, .send 1] := rfl
+
+/-- `allJoin f` — the join of the databases of instances `0..f.n-1` — is exactly their least
+    upper bound in the last-writer-wins order: it is well-formed, every instance's database is
+    below it, and it is below every well-formed database that is above all of them. -/
+theorem C01_allJoin_is_lub (f : Fleet) (hwf : FleetWF f) :
+    (allJoin f).WF ∧ (∀ j, j < f.n → (f.db j).le (allJoin f)) ∧
+    ∀ d : DB, d.WF → (∀ j, j < f.n → (f.db j).le d) → (allJoin f).le d :=
+  ⟨allJoin_wf hwf, le_allJoin hwf, allJoin_le hwf⟩
+
+/-- One settle round suffices, from ANY well-formed state (any number of instances, any prior
+    databases, any prior bucket content): after every instance uploads, every instance merges
+    every one of these uploads, and every instance uploads again, the fleet is quiescent, the
+    number of instances is unchanged, and every instance holds exactly the join (least upper
+    bound, `C01_allJoin_is_lub`) of all instances' prior databases — per key the last-writer-wins
+    winner among what the instances held. (Holds for `f.n = 0` too, vacuously.) -/
+theorem C01_settles (f : Fleet) (hwf : FleetWF f) :
+    let g := run f (settleSchedule f.n f.bucket.length)
+    Quiescent g ∧ g.n = f.n ∧ ∀ i, i < f.n → g.db i = allJoin f :=
+  ⟨settle_quiescent hwf, run_n f _, fun i hi => settle_db hwf i hi⟩
+
+/-- The same, without reference to `allJoin`: after the settle round every instance's database is
+    an upper bound of all prior databases and lies below every well-formed upper bound of them. -/
+theorem C01_settles_lub (f : Fleet) (hwf : FleetWF f) (i : Nat) (hi : i < f.n) :
+    let g := run f (settleSchedule f.n f.bucket.length)
+    (∀ j, j < f.n → (f.db j).le (g.db i)) ∧
+    ∀ d : DB, d.WF → (∀ j, j < f.n → (f.db j).le d) → (g.db i).le d := by
+  intro g
+  have h : g.db i = allJoin f := (C01_settles f hwf).2.2 i hi
+  rw [h]
+  exact ⟨le_allJoin hwf, allJoin_le hwf⟩
+
+/-- After the settle round all instances hold identical content (from quiescence, by
+    `C01_converged`). -/
+theorem C01_settles_equal (f : Fleet) (hwf : FleetWF f) :
+    let g := run f (settleSchedule f.n f.bucket.length)
+    ∀ i j, i < f.n → j < f.n → g.db i = g.db j := by
+  intro g i j hi hj
+  have hg : FleetWF g := run_wf hwf (fun s hs => by
+    simp only [settleSchedule, sendAll, loadAll, loadsOf, List.mem_append, List.mem_map,
+      List.mem_flatMap] at hs
+    rcases hs with (⟨_, _, rfl⟩ | ⟨_, _, _, _, rfl⟩) | ⟨_, _, rfl⟩ <;> trivial)
+  have hn : g.n = f.n := (C01_settles f hwf).2.1
+  exact C01_converged g hg (C01_settles f hwf).1 i j (by rw [hn]; exact hi) (by rw [hn]; exact hj)
+
+/-- Whatever happened before: after any schedule of well-formed writes, uploads and merges from
+    the empty fleet of `n` instances, one settle round yields a quiescent fleet of `n` instances
+    that all hold identical content, namely the join of what they held before the round. -/
+theorem C01_settle_after_any_history (n : Nat) (steps : List Step) (hs : StepsWF steps) :
+    let h := run (init n) steps
+    let g := run h (settleSchedule n h.bucket.length)
+    Quiescent g ∧ g.n = n ∧ (∀ i j, i < n → j < n → g.db i = g.db j) ∧
+    ∀ i, i < n → g.db i = allJoin h := by
+  intro h g
+  have hh : FleetWF h := run_wf (init_wf n) hs
+  have hn : h.n = n := run_n (init n) steps
+  have hg : g = run h (settleSchedule h.n h.bucket.length) := by rw [hn]
+  rw [hg]
+  obtain ⟨hq, hgn, hall⟩ := C01_settles h hh
+  refine ⟨hq, hgn.trans hn, ?_, ?_⟩
+  · intro i j hi hj
+    exact C01_settles_equal h hh i j (by rw [hn]; exact hi) (by rw [hn]; exact hj)
+  · intro i hi
+    exact hall i (by rw [hn]; exact hi)
+
+/-- non-vacuity: two instances wrote the same key with conflicting versions (equal timestamps,
+    different values); the fleet is well-formed, and after the settle round both hold the
+    last-writer-wins winner (on equal timestamps the lexicographically lower value) -/
+example :
+    let f := run (init 2) [.write 0 ([1], [2]) ⟨5, false, [9]⟩, .write 1 ([1], [2]) ⟨5, false, [7]⟩]
+    let g := run f (settleSchedule f.n f.bucket.length)
+    FleetWF f ∧ f.n = 2 ∧ f.db 0 ([1], [2]) = some ⟨5, false, [9]⟩ ∧
+    f.db 1 ([1], [2]) = some ⟨5, false, [7]⟩ ∧
+    g.db 0 ([1], [2]) = some ⟨5, false, [7]⟩ ∧ g.db 1 ([1], [2]) = some ⟨5, false, [7]⟩ := by
+  refine ⟨run_wf (init_wf 2) ?_, rfl, by decide, by decide, by decide, by decide⟩
+  intro s hs
+  simp only [List.mem_cons, List.mem_nil_iff, or_false] at hs
+  rcases hs with rfl | rfl <;> simp [Ver.WF]
 
 end Ls.C01
